@@ -61,7 +61,7 @@
 //     exist before the call;
 //   - tar streams archive/tar cannot encode are outside the space (counted as skipped);
 //   - behaviour while Scan/Unpack is still running (only the state after return is compared);
-//   - scans: a difference that disappears by itself within 5 s after Scan returned (a dependency
+//   - scans: a difference that disappears by itself within 2 s after Scan returned (a dependency
 //     closing a handle in its own goroutine) is not counted; waiting can only remove an alarm;
 //   - unpack: whether the target directory ITSELF survives (an emptied target that gets removed is
 //     accepted; its parent and everything else outside must not change).
@@ -483,14 +483,25 @@ func worker() {
 			if len(vs) > 0 {
 				_, again := runScanJob(sb, infos, j)
 				sum.Evals++
-				tag := "V"
+				// What a snapshot shows is a fact even if a second run does not show it again (a racing
+				// goroutine of a dependency): such a violation is reported, marked as intermittent.
+				note := ""
 				if keysOf(again) != keysOf(vs) {
-					tag = "N"
+					note = " [not seen identically in a second run of the same scan]"
+					have := map[string]bool{}
+					for _, v := range vs {
+						have[v.Key] = true
+					}
+					for _, v := range again {
+						if !have[v.Key] {
+							vs = append(vs, v)
+						}
+					}
 				}
 				for _, v := range vs {
 					rj := j
 					rj.Only = v.Only
-					send(tag, vmsg{Idx: idx, Key: v.Key, What: v.What, Replay: map[string]any{"phase": "scan", "job": rj}})
+					send("V", vmsg{Idx: idx, Key: v.Key, What: v.What + note, Replay: map[string]any{"phase": "scan", "job": rj}})
 				}
 			}
 		}
